@@ -127,6 +127,10 @@ def r2(ctx, rep, rejected):
                     if ev.kind == "test" and "fut_done" in t and ev.data is True:
                         delivered = True   # nothing pending any more
                         break
+                    if ev.kind == "raise" and isinstance(ev.node, ast.Call) and (call_chain(ev.node) or ("",))[-1] == "set_exception" \
+                            and "InvalidStateError" in prog.exc_name(ev.data):
+                        delivered = True   # the future was already completed (C09's business, not a delayed rejection)
+                        break
                     if ev.kind == "test" and chain(ev.node) == ("self", "response_future") and ev.data is False:
                         delivered = True
                         break
